@@ -339,6 +339,49 @@ def huge_cases(tier):
     return [core.case([{'op': 'sd.huge', 'bases': c}], kind='huge', bases=c) for c in combos]
 
 
+def lazy2_cases(tier):
+    """lazy sets of a few hundred up to 2^17 elements traversed twice (second pass after a complete or an interrupted first one)"""
+    out = []
+    for k in ((8, 9, 10) if tier == 'quick' else (8, 9, 10, 11, 12, 13)):
+        out.append({'bool': k})
+    out.append({'bool': 17, 'stop_first': 65536})
+    out.append({'bool': 17})
+    for a, b in ((17, 17), (18, 16), (20, 15), (23, 23), (3, 100), (100, 3), (30, 10), (16, 16), (1, 300), (300, 1)):
+        out.append({'dec': [a, b]})
+        out.append({'dec': [a, b], 'stop_first': 256})
+        out.append({'dec': [a, b], 'stop_first': 100})
+    out.append({'dec': [7, 7, 7]})
+    out.append({'dec': [40, 41, 42], 'stop_first': 65600})
+    return [core.case([dict({'op': 'sd.lazy2'}, **c)], kind='lazy2', spec=c) for c in out]
+
+
+def judge_lazy2(res, cs, cr):
+    if not core.std_death_checks(res, PROP, cs, cr):
+        return
+    ev = cr.events[0]
+    spec = cs['meta']['spec']
+    first, second = ev['passes']
+    bad = []
+    if second['count'] != ev['card']:
+        bad.append(('lazy-iteration-count', f"second traversal yields {second['count']} elements, cardinality {ev['card']}"))
+    if 'stop_first' not in spec and first['count'] != ev['card']:
+        bad.append(('lazy-iteration-count', f"first traversal yields {first['count']} elements, cardinality {ev['card']}"))
+    if not first['ordered'] or not second['ordered']:
+        bad.append(('lazy-iteration-order', f"traversal is not strictly increasing (first pass {first['ordered']}, second pass {second['ordered']})"))
+    for pos, text in first['marks'].items():
+        if second['marks'].get(pos) != text:
+            bad.append(('lazy-iteration-repeat', f"element #{pos} is {text} in the first traversal and {second['marks'].get(pos)} in the second"))
+            break
+    if 'stop_first' not in spec and first['hash'] != second['hash']:
+        bad.append(('lazy-iteration-repeat', 'the two traversals yield different sequences'))
+    res.count('judged', 6)
+    res.cover('lazy2:' + ('interrupted-first-pass' if 'stop_first' in spec else 'two-full-passes'))
+    for what, msg in bad[:1]:
+        res.violation(f'{PROP}/sd/{what}', f'lazy set {spec}: {msg}', cs)
+    res.judged(repr(('lazy2', sorted(spec.items()))), nontrivial=True)
+    res.counters['judged'] -= 1
+
+
 def judge_huge(res, cs, cr):
     if not core.std_death_checks(res, PROP, cs, cr):
         return
@@ -377,6 +420,8 @@ def run_shard(desc, env):
     if desc['kind'] == 'huge':
         for cs, cr in env.execute(huge_cases(env.tier), chunk=100):
             judge_huge(res, cs, cr)
+        for cs, cr in env.execute(lazy2_cases(env.tier), chunk=5):
+            judge_lazy2(res, cs, cr)
         return res
     for cs, cr in env.execute(gen_cases(desc, env), chunk=50):
         judge(res, cs, cr)
@@ -386,5 +431,5 @@ def run_shard(desc, env):
 def replay(cs, env):
     res = core.ShardResult()
     for c, cr in env.execute([cs]):
-        (judge_huge if c['meta'].get('kind') == 'huge' else judge)(res, c, cr)
+        {'huge': judge_huge, 'lazy2': judge_lazy2}.get(c['meta'].get('kind'), judge)(res, c, cr)
     return res
